@@ -7,7 +7,7 @@ SPEC = dict(
          "<= 3 (quick) / 4 (thorough) nodes over {1,\"a\"} leaves with keys up to renaming; whitespace family; nesting families "
          "{1..129} and {200,254..258,300,385,1000} x {array,object,mixed} x leaves. Every document x all 704 combinations of "
          "{default,-c,--tab,--indent 0..7} x {-S} x {-a} x {-,-r,-j,--raw-output0} x {--seq} x {plain, --arg zz 1} (the very deep "
-         "documents x a 384-combination subset, two of them x all 704). A case is distinct+non-trivial when its (document, stdout) pair is new",
+         "documents x a 256-combination subset, the two deepest accepted ones x all 704). A case is distinct+non-trivial when its (document, stdout) pair is new",
     level_text="Every enumerated (document, option combination) is run through the same clap parser and run_jq as the executable; stdout is "
                "read with Python's json (NaN/Infinity rejected, duplicate keys and key order observed) and must equal the generator's value "
                "under jq's duplicate rule (first position, last value, numbers as doubles), keep the expected key order (sorted by code point "
